@@ -74,8 +74,10 @@ def matrix(dud, drv, base, R):
     k = 0
     for args, uses_prepare in SUBCOMMANDS:
         for where in ("root", "sub"):
-            for outcome in ("ok", "fail", "prelocked", "profile-unwritable", "trace-unwritable"):
+            for outcome in ("ok", "fail", "prelocked", "profile-unwritable", "trace-unwritable", "outside-target"):
                 if outcome.endswith("unwritable") and args[0] not in ("status", "commit", "run"):
+                    continue
+                if outcome == "outside-target" and not any(x.endswith(".yaml") for x in args):
                     continue
                 k += 1
                 root, env = mkproject(dud, base, "m%d" % k)
@@ -90,6 +92,11 @@ def matrix(dud, drv, base, R):
                 subprocess.run([dud, "push"], cwd=root, env=env, stdout=subprocess.DEVNULL, stderr=subprocess.DEVNULL)
                 cwd = root if where == "root" else os.path.join(root, "sub", "dir")
                 a = [os.path.relpath(os.path.join(root, x), cwd) if x.endswith(".yaml") else x for x in args]
+                if outcome == "outside-target":
+                    # a stage argument that resolves outside the project (relative from a nested directory, or absolute)
+                    outside = os.path.join(os.path.dirname(root), "elsewhere-%d.yaml" % k)
+                    open(outside, "w").write("outputs:\n  x.txt: {}\n")
+                    a = [(os.path.relpath(outside, cwd) if k % 2 else outside) if x.endswith(".yaml") else x for x in a]
                 if outcome == "fail":
                     # make the body fail: break the index (unknown stage file) — config commands do not read it
                     if args[0] == "config":
@@ -115,6 +122,8 @@ def matrix(dud, drv, base, R):
                 p = subprocess.run([dud] + a, cwd=cwd, env=env, stdout=subprocess.PIPE, stderr=subprocess.PIPE, timeout=60)
                 left = os.path.exists(os.path.join(root, ".dud", "lock"))
                 body_ok = outcome == "ok"
+                if outcome == "outside-target" and p.returncode == 0:
+                    body_ok = True
                 arg_error = outcome == "fail" and args[0] == "config"      # cobra rejects the argument before any lock is taken
                 R.count("matrix-%s-%s-%s" % (" ".join(args), where, outcome), where == "sub" or outcome != "ok")
                 name = "`dud %s` from %s (%s)" % (" ".join(a), where, outcome)
@@ -129,7 +138,7 @@ def matrix(dud, drv, base, R):
                             name, p.returncode, p.stderr.decode(errors="replace")[-120:])))
                     if body_ok and p.returncode != 0 and not left:
                         viol.append(("healthy-failed", "%s exited %d: %s" % (name, p.returncode, p.stderr.decode(errors="replace")[-160:])))
-                if not arg_error and not outcome.endswith("unwritable"):
+                if not arg_error and not outcome.endswith("unwritable") and outcome != "outside-target":
                     lines.append("%d %d %d %d" % (1 if uses_prepare else 0, 1 if where == "root" else 0, 1 if body_ok else 0, 1 if outcome == "prelocked" else 0))
                     obs.append("exit=%d lock=%d" % (0 if p.returncode == 0 else 1, 1 if left else 0))
                     descr.append(name)
